@@ -112,6 +112,8 @@ structure Ghost where
   e0 : EvId := 0
   /-- the process whose burst is running -/
   run : Option EvId := none
+  /-- is the "no live process is lost" clause tracked?  (It needs `0 < fuel`.) -/
+  lv : Bool := false
 
 /-- process `p` is registered nowhere -/
 def Unreg (s : KState ℚ σ) (p : EvId) : Prop := ∀ e L, (s.ev e).cbs = some L → Cb.resume p ∉ L
@@ -143,7 +145,7 @@ structure InvQ (s : KState ℚ σ) : Prop where
 and it is registered there unless the target has been processed already (then its `_resume` is among the callbacks
 being run, or the `_resume` loop ran out of fuel on it) -/
 structure InvL (g : Ghost) (s : KState ℚ σ) : Prop where
-  live : ∀ p pr, s.proc? p = some pr → (s.ev p).out = none → g.run ≠ some p →
+  live : g.lv = true → ∀ p pr, s.proc? p = some pr → (s.ev p).out = none → g.run ≠ some p →
     ∃ t, pr.target = some t ∧ t < s.events.size ∧
       ((s.ev t).cbs = none ∨ ∃ L, (s.ev t).cbs = some L ∧ Cb.resume p ∈ L)
 
